@@ -5,7 +5,7 @@ Mirror of `whoosh/util/numlists.py`: `delta_encode`, `delta_decode`, `GrowableAr
 `UIntEncoding`: `write_nums/read_nums/get`, FIX: `read_nums`/`get` return the number, not the
 1-tuple `struct.unpack` gives) and `Varints`; plus the big-endian fixed-width integers
 `StructFile.write_array` / `get_ushort/get_int/get_uint/get_long` use for the arrays
-(`filedb/structfile.py`).  Simple16 and GInts are not modelled (run end-to-end only).
+(`filedb/structfile.py`).  Simple16 and GInts are mirrored in `WM.Model.NumPack`.
 -/
 namespace WM.NumLists
 
